@@ -69,6 +69,42 @@ pub trait Scenario: Sync {
   }
 }
 
+/// A scenario shared with another property: only the rules that belong to the
+/// statement of the property being checked are judged here (`keep` = rule
+/// suffixes); what the scenario finds beyond them is the other property's
+/// business and is reported by that property's check.
+pub struct OnlyRules {
+  pub inner: Box<dyn Scenario>,
+  pub keep: &'static [&'static str],
+}
+
+impl Scenario for OnlyRules {
+  fn name(&self) -> &'static str {
+    self.inner.name()
+  }
+  fn weight(&self) -> usize {
+    self.inner.weight()
+  }
+  fn generate(&self, rng: &mut Rng, tier: Tier) -> Value {
+    self.inner.generate(rng, tier)
+  }
+  fn run(&self, case: &Value) -> Result<Outcome, String> {
+    let mut o = self.inner.run(case)?;
+    let other = match &o.violation {
+      Some(v) => !self.keep.iter().any(|k| v.rule.ends_with(k)),
+      None => false,
+    };
+    if other {
+      o.violation = None;
+    }
+    o.reach.push(("info:run_violating_only_a_rule_of_the_scenario's_home_property", other as u64));
+    Ok(o)
+  }
+  fn components(&self) -> (&'static [&'static str], &'static [&'static str]) {
+    self.inner.components()
+  }
+}
+
 pub struct PropertyCheck {
   pub id: &'static str,
   pub scenarios: Vec<Box<dyn Scenario>>,
